@@ -7,6 +7,7 @@ cd "$(dirname "$0")"
 /venv/bin/python harness/extract.py
 /venv/bin/python harness/extract_algebraic.py
 /venv/bin/python harness/extract_quadpack.py
+/venv/bin/python harness/extract_quadpack_adaptive.py
 cd lean
 lake build driver
 lake build BezierVerif
